@@ -45,7 +45,7 @@ package telemetry
 //@   at call child#1: assert $childvar == "1"
 //@   ensures $childvar != "" ==> $spawned == old($spawned) && $fsops == old($fsops)
 //@   ensures $spawned <= old($spawned)+1
-//@   modifies heap, telemetry.Default, "G:counter.rotating", "G:counter.defaultFile", $childvar, $spawned, $fsops, $minsize, $token, $created, $age, $nenv, $marked, $now, $weekend, $ledger, $lost, $modeDir
+//@   modifies heap, telemetry.Default, "G:counter.rotating", "G:counter.defaultFile", $childvar, $spawned, $fsops, $minsize, $token, $created, $age, $nenv, $marked, $now, $weekend, $ledger, $lost, $modeDir, $refreshed, $touched
 
 //@ contract MaybeChild
 //@   requires $rd == 0 && $lk == 0
@@ -72,7 +72,7 @@ package telemetry
 //@   ensures $mode == "off" ==> $fsops == old($fsops) && $spawned == old($spawned)
 //@   ensures $spawned != old($spawned) ==> config.ReportCrashes || (config.Upload && $token)
 //@   ensures $spawned <= old($spawned)+1
-//@   modifies heap, telemetry.Default, "G:counter.rotating", "G:counter.defaultFile", $spawned, $fsops, $minsize, $token, $created, $age, $nenv, $now, $weekend, $ledger, $lost, $modeDir
+//@   modifies heap, telemetry.Default, "G:counter.rotating", "G:counter.defaultFile", $spawned, $fsops, $minsize, $token, $created, $age, $nenv, $now, $weekend, $ledger, $lost, $modeDir, $refreshed, $touched
 
 // startChild: the new process carries GO_TELEMETRY_CHILD=1 as the entry after
 // the copied environment, and GO_TELEMETRY_CHILD_UPLOAD=1 after it exactly
